@@ -1,0 +1,30 @@
+//go:build verif
+
+package miner
+
+// Verification hooks (build tag `verif` only; add-only). Synchronous entry points to the three
+// paths through which verification tickets reach a miner, and to block generation/verification.
+
+import (
+	"context"
+
+	"0chain.net/chaincore/block"
+	"0chain.net/chaincore/node"
+)
+
+// VerifProcessVerifyBlock is the synchronous body of the verify-block message handler.
+func (mc *Chain) VerifProcessVerifyBlock(ctx context.Context, b *block.Block) error {
+	return mc.processVerifyBlock(ctx, b)
+}
+
+// VerifHandleVerificationTicket is the verification-ticket message handler.
+func (mc *Chain) VerifHandleVerificationTicket(ctx context.Context, sender *node.Node, bvt *block.BlockVerificationTicket) {
+	msg := NewBlockMessage(MessageVerificationTicket, sender, nil, nil)
+	msg.BlockVerificationTicket = bvt
+	mc.handleVerificationTicketMessage(ctx, msg)
+}
+
+// VerifNotarizationProcess is the synchronous body of the notarization message worker.
+func (mc *Chain) VerifNotarizationProcess(ctx context.Context, not *Notarization) error {
+	return mc.notarizationProcess(ctx, not)
+}
